@@ -102,7 +102,21 @@ func c16Rm(r *rng, id string) {
 			st = lblErr(err)
 			return
 		}
-		rest, _ := io.ReadAll(conn)
+		// the remainder is read the way different consumers do: all at once, or in small chunks
+		// (a first read shorter than what the label parser had read ahead)
+		var rest []byte
+		if r.chance(1, 2) {
+			rest, _ = io.ReadAll(conn)
+		} else {
+			for {
+				chunk := make([]byte, 1+r.intn(7))
+				n, err := conn.Read(chunk)
+				rest = append(rest, chunk[:n]...)
+				if err != nil {
+					break
+				}
+			}
+		}
 		st = fmt.Sprintf("ok:%s:%s", hx(rest), hx([]byte(lab)))
 	}()
 	emit("C16 rm id=%s buf=%s pk=%s st=%s", id, hx(buf), pk, st)
